@@ -12,7 +12,7 @@ def run(args):
     out = {"calls": [], "errors": []}
     try:
         server = drvlib.Server()
-        client = drvlib.make_client(pkg, core, server, args.get("transport", "bundled"))
+        client = drvlib.make_client(pkg, core, server, args.get("transport", "bundled"), transport_kwargs=args.get("transport_kwargs"))
     except BaseException as e:  # noqa
         if isinstance(e, (KeyboardInterrupt, SystemExit, TimeoutError)):
             raise
